@@ -89,3 +89,242 @@ def reversibility_search(rng, n, tol=1e-9):
             if len(fails) >= 2:
                 break
     return fails, dict(evals=evals, worst=worst)
+
+
+# ---------------------------------------------------------------------------------------------------------------
+# C12 / C13 / C14: the stepping loop on the real sdeint
+# ---------------------------------------------------------------------------------------------------------------
+
+SOLVERS = [
+    ('euler', 'ito', NOISE), ('milstein', 'ito', ['diagonal', 'additive', 'scalar']),
+    ('milstein', 'stratonovich', ['diagonal', 'additive', 'scalar']), ('srk', 'ito', ['diagonal', 'additive', 'scalar']),
+    ('euler_heun', 'stratonovich', NOISE), ('heun', 'stratonovich', NOISE), ('midpoint', 'stratonovich', NOISE),
+    ('log_ode', 'stratonovich', NOISE), ('reversible_heun', 'stratonovich', NOISE),
+]
+LEVY = {'srk': 'space-time', 'log_ode': 'foster'}
+
+
+def random_solver(rng):
+    method, sde_type, noises = rng.choice(SOLVERS)
+    return method, sde_type, rng.choice(noises)
+
+
+class RecordingBM(torchsde.BaseBrownian):
+    def __init__(self, bm):
+        self.bm = bm
+        self.log = []
+
+    def __call__(self, ta, tb=None, return_U=False, return_A=False):
+        self.log.append((float(ta), float(tb)))
+        return self.bm(ta, tb, return_U=return_U, return_A=return_A)
+
+    def __repr__(self): return repr(self.bm)
+    dtype = property(lambda s: s.bm.dtype)
+    device = property(lambda s: s.bm.device)
+    shape = property(lambda s: s.bm.shape)
+    levy_area_approximation = property(lambda s: s.bm.levy_area_approximation)
+
+
+def make_problem(rng, dtype=torch.float64):
+    method, sde_type, noise = random_solver(rng)
+    d, m, batch = rng.choice([1, 2, 3]), rng.choice([1, 2, 3]), rng.choice([1, 2, 4])
+    seed = rng.randrange(10 ** 6)
+    sde = RandSDE(noise, sde_type, d, m, seed, dtype=dtype)
+    g = torch.Generator().manual_seed(seed)
+    y0 = 0.3 * torch.randn(batch, d, generator=g, dtype=dtype)
+    return dict(method=method, sde_type=sde_type, noise=noise, d=d, m=sde.m, batch=batch, seed=seed), sde, y0
+
+
+def make_bm(p, t0, t1, dtype=torch.float64):
+    return BrownianInterval(t0=t0, t1=t1, size=(p['batch'], p['m']), dtype=dtype, entropy=p['seed'],
+                            levy_area_approximation=LEVY.get(p['method'], 'none'))
+
+
+def random_ts(rng, dt):
+    t0 = rng.choice([0.0, 0.25, -0.5])
+    kind = rng.choice(['aligned', 'unaligned', 'clustered', 'bigdt'])
+    if kind == 'aligned':
+        ks = sorted(rng.sample(range(1, 24), rng.randrange(1, 5)))
+        ts = [t0] + [t0 + k * dt for k in ks]
+    elif kind == 'clustered':
+        base = t0 + rng.uniform(0.1, 0.6)
+        ts = [t0] + sorted(base + rng.uniform(0, dt) for _ in range(rng.randrange(2, 5)))
+    elif kind == 'bigdt':
+        ts = [t0] + sorted(t0 + rng.uniform(0.01, 0.9 * dt) for _ in range(rng.randrange(1, 4)))
+    else:
+        ts = [t0] + sorted(t0 + rng.uniform(0.01, 1.5) for _ in range(rng.randrange(1, 5)))
+    return sorted(set(ts)), kind
+
+
+def c12_search(rng, n):
+    fails, st = [], dict(evals=0, kinds={}, invariance_checks=0)
+    for _ in range(n):
+        p, sde, y0 = make_problem(rng)
+        dt = rng.choice([0.125, 0.25, 0.1, 0.05, 0.3])
+        ts, kind = random_ts(rng, dt)
+        p.update(dt=dt, ts=ts, kind=kind)
+        try:
+            with torch.no_grad():
+                bm = RecordingBM(make_bm(p, ts[0], ts[-1]))
+                ys = torchsde.sdeint(sde, y0, ts, bm=bm, method=p['method'], dt=dt)
+                log = bm.log
+                bad = None
+                if not torch.equal(ys[0], y0):
+                    bad = 'ys[0] != y0'
+                if tuple(ys.shape) != (len(ts), p['batch'], p['d']) or ys.dtype != y0.dtype:
+                    bad = f'shape/dtype {tuple(ys.shape)} {ys.dtype}'
+                # one trajectory on the dt grid
+                tt = torch.tensor(ts, dtype=torch.float64)
+                cur = float(tt[0])
+                for (a, b) in log:
+                    nxt = float(torch.min(torch.tensor(a, dtype=torch.float64) + dt, tt[-1]))
+                    if a != cur or b != nxt:
+                        bad = f'query {(a, b)} is not the next grid step from {cur} (expected end {nxt})'
+                        break
+                    cur = b
+                if bad is None and cur != float(tt[-1]):
+                    bad = f'grid ends at {cur}, not at ts[-1]'
+                # invariance: other output times, same ends
+                extra = sorted(set([ts[0], ts[-1]] + [rng.choice(ts) for _ in range(2)] +
+                                   [rng.uniform(ts[0], ts[-1]) for _ in range(rng.randrange(0, 4))]))
+                bm2 = RecordingBM(make_bm(p, ts[0], ts[-1]))
+                ys2 = torchsde.sdeint(sde, y0, extra, bm=bm2, method=p['method'], dt=dt)
+                for i, t in enumerate(ts):
+                    if t in extra:
+                        st['invariance_checks'] += 1
+                        if not torch.equal(ys[i], ys2[extra.index(t)]):
+                            bad = f'output at t={t} changed when other output times changed ({extra})'
+                if bad is None and bm2.log != log:
+                    bad = 'the sequence of solver steps depends on the output times'
+                # list vs tensor ts
+                ys3 = torchsde.sdeint(sde, y0, torch.tensor(ts, dtype=torch.float64), bm=make_bm(p, ts[0], ts[-1]),
+                                      method=p['method'], dt=dt)
+                if not torch.equal(ys, ys3):
+                    bad = 'list ts and tensor ts give different results'
+        except Exception as e:  # noqa
+            bad = f'{type(e).__name__}: {e}'
+        st['evals'] += 1
+        st['kinds'][kind] = st['kinds'].get(kind, 0) + 1
+        if bad:
+            fails.append(dict(kind='c12', problem=p, why=bad))
+            if len(fails) >= 2:
+                break
+    return fails, st
+
+
+def c13_search(rng, n):
+    fails, st = [], dict(evals=0, chunks=0)
+    for _ in range(n):
+        p, sde, y0 = make_problem(rng)
+        dt = rng.choice([0.125, 0.25, 0.0625])
+        nsteps = rng.randrange(2, 14)
+        t0 = rng.choice([0.0, 0.5])
+        cuts = sorted(rng.sample(range(1, nsteps), min(nsteps - 1, rng.randrange(1, 5))))
+        grid = [t0 + k * dt for k in [0] + cuts + [nsteps]]
+        p.update(dt=dt, grid=grid)
+        bad = None
+        try:
+            with torch.no_grad():
+                bm = make_bm(p, grid[0], grid[-1])
+                one, one_extra = torchsde.sdeint(sde, y0, [grid[0], grid[-1]], bm=bm, method=p['method'], dt=dt,
+                                                 extra=True)
+                y, extra = y0, None
+                for a, b in zip(grid[:-1], grid[1:]):
+                    ys, extra = torchsde.sdeint(sde, y, [a, b], bm=bm, method=p['method'], dt=dt, extra=True,
+                                                extra_solver_state=extra if extra else None)
+                    y = ys[-1]
+                    st['chunks'] += 1
+                if not torch.equal(y, one[-1]):
+                    bad = f'chunked final state differs from one-shot by {float((y - one[-1]).abs().max())}'
+                elif any(not torch.equal(u, v) for u, v in zip(extra, one_extra)):
+                    bad = 'chunked extra solver state differs from one-shot'
+        except Exception as e:  # noqa
+            bad = f'{type(e).__name__}: {e}'
+        st['evals'] += 1
+        if bad:
+            fails.append(dict(kind='c13', problem=p, why=bad))
+            if len(fails) >= 2:
+                break
+    return fails, st
+
+
+def c14_search(rng, n):
+    from torchsde._core import adaptive_stepping
+    fails, st = [], dict(evals=0, trials=0, rejections=0, dtmin_trials=0)
+    for _ in range(n):
+        p, sde, y0 = make_problem(rng)
+        dt = rng.choice([0.1, 0.05, 0.5, 0.01])
+        dt_min = rng.choice([1e-3, 1e-2, dt / 2, 1e-4])
+        tol = rng.choice([1e-1, 1e-2, 1e-3, 1e-5])
+        ts, kind = random_ts(rng, dt)
+        ts = [ts[0], ts[0] + min(ts[-1] - ts[0], 0.6)] if rng.random() < 0.5 else ts
+        stiff = rng.random() < 0.3
+        if stiff:
+            with torch.no_grad():
+                sde.A.mul_(30.0)
+        p.update(dt=dt, dt_min=dt_min, tol=tol, ts=ts, stiff=stiff)
+        errs = []
+        saved = adaptive_stepping.compute_error
+
+        def rec(*a, **k):
+            e = saved(*a, **k)
+            errs.append(e)
+            return e
+
+        adaptive_stepping.compute_error = rec
+        bad = None
+        try:
+            with torch.no_grad():
+                bm = RecordingBM(make_bm(p, ts[0], ts[-1]))
+                ys = torchsde.sdeint(sde, y0, ts, bm=bm, method=p['method'], dt=dt, adaptive=True, rtol=tol, atol=tol,
+                                     dt_min=dt_min)
+            log = bm.log
+            if len(log) % 3 != 0 or len(log) // 3 != len(errs):
+                bad = f'{len(log)} queries for {len(errs)} error estimates'
+            else:
+                trials = [log[i:i + 3] for i in range(0, len(log), 3)]
+                cur = float(torch.tensor(ts, dtype=torch.float64)[0])
+                end = float(torch.tensor(ts, dtype=torch.float64)[-1])
+                for k, (tr, e) in enumerate(zip(trials, errs)):
+                    (a, b), (a2, mid), (mid2, b2) = tr
+                    st['trials'] += 1
+                    if not (a == a2 == cur and b == b2 and mid == mid2 and a < b <= end and a < mid < b):
+                        bad = f'trial {k} queries {tr} do not form full/half/half from curr_t={cur}'
+                        break
+                    last = k == len(trials) - 1
+                    accepted = last or trials[k + 1][0][0] == b
+                    if not last and not accepted and trials[k + 1][0][0] != a:
+                        bad = f'trial {k}: next trial starts at {trials[k + 1][0][0]}, neither {a} nor {b}'
+                        break
+                    if (b - a) < dt_min * (1 - 1e-12) and b != end:
+                        bad = f'trial {k} has length {b - a} < dt_min={dt_min} and is not clipped to ts[-1]'
+                        break
+                    if e <= 1 and not accepted:
+                        bad = f'trial {k} with error {e} <= 1 was rejected'
+                        break
+                    if not accepted:
+                        st['rejections'] += 1
+                        nxt_len = trials[k + 1][0][1] - trials[k + 1][0][0]
+                        # (a trial clipped to ts[-1] may be retried with the same clipped length while the
+                        #  controller's step size, which did shrink, is still longer than the remaining interval)
+                        if not (nxt_len < (b - a) or (b == end and nxt_len == (b - a))):
+                            bad = f'trial {k} rejected but retried with length {nxt_len} >= {b - a}'
+                            break
+                    if abs((b - a) - dt_min) < 1e-15:
+                        st['dtmin_trials'] += 1
+                    if accepted:
+                        cur = b
+                if bad is None and cur != end:
+                    bad = f'accepted steps end at {cur}, not at ts[-1]={end}'
+                if bad is None and not torch.equal(ys[0], y0):
+                    bad = 'ys[0] != y0'
+        except Exception as e:  # noqa
+            bad = f'{type(e).__name__}: {e}'
+        finally:
+            adaptive_stepping.compute_error = saved
+        st['evals'] += 1
+        if bad:
+            fails.append(dict(kind='c14', problem=p, why=bad))
+            if len(fails) >= 2:
+                break
+    return fails, st
